@@ -12,7 +12,7 @@ Definition owns (l : oloc) : bool := match ol_pc l with OWinRun _ | OWinSet _ | 
 Definition ran (l : oloc) : bool := match ol_pc l with OWinSet _ | OWinDtor _ => true | _ => false end.
 Definition setdone (l : oloc) : bool := match ol_pc l with OWinSet true => true | _ => false end.
 Definition sawdone (l : oloc) : bool := match ol_pc l with OWinDtor false | OLoopTest Done | ORetOk => true | _ => false end.
-Definition started (l : oloc) : bool := match ol_pc l with OStart | ORetOk | ORetExc => false | _ => true end.
+Definition started (l : oloc) : bool := match ol_pc l with OEntry | OStart | ORetOk | ORetExc => false | _ => true end.
 Definition returned (l : oloc) : bool := match ol_pc l with ORetOk | ORetExc => true | _ => false end.
 
 Definition JWp (w : word) (ls : list oloc) : Prop :=
@@ -210,6 +210,9 @@ Proof.
   assert (Hi := ILT _ _ _ Hl).
   destruct l as [pc th]. unfold ostep in Ho. cbn [ol_pc ol_throws] in Ho.
   destruct pc.
+  - (* OEntry *)
+    destruct (o_word g) eqn:Ew; inversion Ho; subst; clear Ho; splitJ; rewrite ?Ew; [fW Hl|fN Hl|fO Hl|fR Hl|auto|fS Hl|fD Hl|fF Hl|fW Hl|fN Hl|fO Hl|fR Hl|auto|fS Hl| |fF Hl|fW Hl|fN Hl|fO Hl|fR Hl|auto|fS Hl|fD Hl|fF Hl].
+    intros j l0 H W. reflexivity.
   - (* OStart *)
     inversion Ho; subst; clear Ho. splitJ.
     + fW Hl.
@@ -420,10 +423,10 @@ Qed.
 
 Lemma J_init throws : J (oinit throws).
 Proof.
-  unfold oinit. set (ls := map (fun t => mkOL OStart t) throws).
-  assert (Hpc : forall i l, nth_error ls i = Some l -> ol_pc l = OStart).
+  unfold oinit. set (ls := map (fun t => mkOL OEntry t) throws).
+  assert (Hpc : forall i l, nth_error ls i = Some l -> ol_pc l = OEntry).
   { intros i l H. apply nth_error_In in H. unfold ls in H. apply in_map_iff in H. destruct H as (t & <- & _). auto. }
-  assert (Z0 : forall P : oloc -> bool, (forall l, ol_pc l = OStart -> P l = false) -> count P ls = 0%nat).
+  assert (Z0 : forall P : oloc -> bool, (forall l, ol_pc l = OEntry -> P l = false) -> count P ls = 0%nat).
   { intros P HP. apply count_all_false. intros i l H. apply HP. eauto. }
   unfold J. cbn [fst snd o_word o_refcount o_alive o_fdone o_success o_bad_access].
   rewrite !repeat_length. unfold ls at 1 2 3. rewrite map_length.
@@ -507,6 +510,7 @@ Proof.
       + rewrite (JF r _ P eq_refl) in Fd. discriminate. }
   intros i l A. assert (St' := St i l A). destruct l as [pc th]. unfold ostep in St'. cbn [ol_pc ol_throws] in St'.
   destruct pc; try discriminate; auto; exfalso.
+  - (* OEntry *) destruct (o_word g); discriminate.
   - (* OTop *) destruct expected; [destruct (o_word g)|..]; discriminate.
   - (* OWinSet: waits for the window to drain *)
     destruct (JN i _ A eq_refl) as [k Ek]. rewrite Ek in *. cbn in JW. destruct JW as (_ & C & _).
